@@ -29,21 +29,28 @@ def seeded():
 
 
 def asbuilt():
-    rows = ["| property | theorems (all kernel-checked, axioms within propext / Classical.choice / Quot.sound) | PENDING statements (defs, not theorems) | quick tier: cases / distinct non-trivial / wall |", "|---|---|---|---|"]
+    rows = ["| property | theorems (all kernel-checked, axioms within propext / Classical.choice / Quot.sound) | PENDING statements (defs, not theorems) | quick tier: cases / distinct non-trivial / wall | anchored lines executed by the tie | driver-run definitions: in a theorem statement / all (untied theorems) |", "|---|---|---|---|---|---|"]
     for i in range(1, 21):
         pid = "C%02d" % i
         ev = os.path.join(VERIF, "evidence", pid + ".json")
         props = os.path.join(VERIF, "lean", "ALV", "Props", pid + ".lean")
-        n, cases, dn, wall = "-", "-", "-", "-"
+        n, cases, dn, wall, acov, tie = "-", "-", "-", "-", "-", "-"
         if os.path.exists(ev):
             e = json.load(open(ev))
             c = e["coverage"]
             n = "%s / %s" % (c.get("discharged"), c.get("obligations"))
             cases, dn, wall = c.get("evaluations"), c.get("distinct_nontrivial"), "%.0f s" % e.get("wall_s", 0)
+            a = c.get("anchor_coverage") or {}
+            if a.get("available"):
+                acov = "%s / %s" % (a.get("executed"), a.get("anchored_lines"))
+            t = c.get("proof_tie") or {}
+            if t.get("driver_reachable_definitions") is not None:
+                tie = "%s / %s (%d)" % (t.get("definitions_in_theorem_statements_and_run"), t.get("driver_reachable_definitions"),
+                                        len(t.get("untied_theorems") or []))
         pend = []
         if os.path.exists(props):
             pend = re.findall(r"^def (\w*PENDING\w*|close_returns_no_pause|close_returns_fixed|steps_bounded|gammatone_sampled_first_unit_gain_all_eta)\b", open(props).read(), re.M)
-        rows.append("| %s | %s | %s | %s / %s / %s |" % (pid, n, ", ".join("`%s`" % x for x in pend) or "none", cases, dn, wall))
+        rows.append("| %s | %s | %s | %s / %s / %s | %s | %s |" % (pid, n, ", ".join("`%s`" % x for x in pend) or "none", cases, dn, wall, acov, tie))
     return "\n".join(rows)
 
 
